@@ -111,6 +111,13 @@ func verifyFunction(l *Loaded, cs *Contracts, fn *ssa.Function, con *Contract) (
 	cov := e.addObl(fr, "cover-requires", "false", "preconditions are satisfiable", fn.Pos(), nil)
 	cov.Cover = true
 
+	// ghost assignments executed on entry
+	for _, eg := range con.Entry {
+		key, srt, _ := e.ghostKey(eg.Name)
+		v := e.compile(mkctx(st, nil, "entry ghost of "+res.Name), eg.Expr)
+		st.m[key] = e.B.define(key, srt, v.T)
+	}
+
 	rets, out, returns := e.encodeBody(fr, st)
 	e.copyOutFor(fr, out)
 
@@ -276,6 +283,9 @@ func (e *Enc) loopCtx(fr *Frame, li *LoopInfo, h *ssa.BasicBlock, phis map[*ssa.
 // frameCtx resolves names at a program point of frame fr.
 func (e *Enc) frameCtx(fr *Frame, st *State, b *ssa.BasicBlock, idx int, phis map[*ssa.Phi]Val) *SpecCtx {
 	c := &SpecCtx{e: e, fr: fr, st: st, old: fr.entry, names: map[string]CE{}}
+	if fr.parent == nil && e.entryState != nil {
+		c.old = e.entryState
+	}
 	// contract-level names of the top function (ghost params, lets) stay visible
 	c.lookup = func(name string) (CE, bool) {
 		return e.lookupLocal(fr, name, b, idx, phis, c)
